@@ -7,9 +7,9 @@ urwid canvases following the resolved plan.  After every node: cols(), rows(), e
 (text, attr, cs), cursor and pop-up coordinates are compared.  At the end every canvas that was
 handed to an operation as an operand (and not deliberately mutated in place) is compared with its
 model again (operands unchanged).  Finalized canvases must refuse every mutator with CanvasError.
-Delta clause: a second tree made by replacing one sub-tree of the first (re-using the same leaf
-objects) and fitted to the same size; ``new.content_delta(old)`` applied to grid(old) must give
-grid(new).
+Delta clause: a second tree of the same size made from the first re-using the same leaf objects
+(one sub-tree replaced and fitted to the size, or wrapped in an attribute remapping, or scrolled
+inside its rectangle); ``new.content_delta(old)`` applied to grid(old) must give grid(new).
 """
 from __future__ import annotations
 
@@ -42,8 +42,12 @@ RULE = (
     "pad_trim_left_right, pad_trim_top_bottom, trim, trim_end, fill_attr_apply, fill_attr, set_cursor, set_pop_up, "
     "finalize; mutators either in place on a fresh composite or on a new CompositeCanvas wrapper; every offset is "
     "an integer mapped modulo the range that is defined for the operand's model size; three encodings (utf-8, "
-    "euc-jp, iso8859-1). About half of the cases carry a delta variant (sub-tree at a path replaced by a fresh "
-    "sub-tree, by another sub-tree of the same tree, or nothing changed; fitted to the same size). trim1: "
+    "euc-jp, iso8859-1). About half of the cases carry a delta variant of the same size built on the same leaf "
+    "objects: the sub-tree at a path replaced by a fresh sub-tree or by another sub-tree of the same tree (fitted to "
+    "the size), nothing changed, remap (the sub-tree wrapped in a non-identity fill_attr / fill_attr_apply: same "
+    "sub-canvases at the same places, only the attribute map of one part differs), or shift (the sub-tree scrolled "
+    "inside its rectangle: k columns and/or rows trimmed on one side and padded on the opposite one); the delta is "
+    "taken in both directions. trim1: "
     "exhaustive (left,right) trims of every 1-row TextCanvas over a 4-symbol alphabet (<=3 chars quick, <=5 "
     "thorough) with one attribute per character. Non-trivial (expr): >=2 operators and a trim/overlay edge that "
     "falls inside a double-width character or is applied to an operand made of several side-by-side or stacked "
@@ -368,7 +372,7 @@ def m_eval(node, LM, force=None, path=None):
     g, co = k["grid"], k["coords"]
     cols, rows = C.g_cols(g), len(g)
     wp, bands = _struct(k)
-    inplace = bool(node[-1]) if op not in ("padlr_raw", "fit") else False
+    inplace = bool(node[-1]) if op not in ("padlr_raw", "padtb_raw", "fit") else False
     multi = wp > 1 or bands > 1
 
     if op in ("padlr", "padlr_raw"):
@@ -395,10 +399,15 @@ def m_eval(node, LM, force=None, path=None):
             p["classes"].append("edge-in-multi-cview")
         return _finish(p)
 
-    if op == "padtb":
-        top = _pick(node[2], -(rows - 1), 2)
-        rem = rows + min(0, top)
-        bottom = _pick(node[3], -(rem - 1), 2)
+    if op in ("padtb", "padtb_raw"):
+        if op == "padtb":
+            top = _pick(node[2], -(rows - 1), 2)
+            rem = rows + min(0, top)
+            bottom = _pick(node[3], -(rem - 1), 2)
+        else:
+            top, bottom = node[2], node[3]
+            if max(0, -top) + max(0, -bottom) >= rows:
+                raise Discard()
         p = _mk("padtb", C.g_pad_trim_tb(g, top, bottom), _tr(co, 0, top), [k], args=(top, bottom), inplace=inplace,
                 wide_pieces=wp, bands=bands + (top > 0) + (bottom > 0))
         if multi and (top < 0 or bottom < 0):
@@ -741,9 +750,29 @@ def second_tree(case, plan):
     tree = case["tree"]
     idxs, target = _resolve_path(plan, d["path"])
     w, h = C.g_cols(target["grid"]), len(target["grid"])
-    mode = d["mode"] % 3
+    mode = d["mode"] % 5
     if mode == 0:
         return tree, "identical", []
+    if mode == 3:
+        # same sub-canvases at the same places, only the attribute mapping applied to one part differs (what an
+        # AttrMap with a focus_map does to its cached child canvas when the focus moves)
+        kind, arg = d.get("remap") or ["fill", "D"]
+        return _replace(tree, idxs, [kind, _subtree(tree, idxs), arg, 0]), "remap", idxs
+    if mode == 4:
+        # same sub-canvases, one part scrolled inside its rectangle: k columns / rows trimmed on one side and padded
+        # on the opposite one (size unchanged)
+        vx, vy = d.get("shift") or [1, 0]
+        dx, dy = _pick(vx, -(w - 1), w - 1), _pick(vy, -(h - 1), h - 1)
+        if not dx and not dy:
+            dx, dy = (1, 0) if w > 1 else (0, 1 if h > 1 else 0)
+        if not dx and not dy:
+            return tree, "identical", []
+        sub = _subtree(tree, idxs)
+        if dx:
+            sub = ["padlr_raw", sub, -dx, dx]
+        if dy:
+            sub = ["padtb_raw", sub, -dy, dy]
+        return _replace(tree, idxs, sub), "shift", idxs
     if mode == 1:
         repl = d["repl"]
         kind = "replace"
@@ -1027,6 +1056,21 @@ def gen_tree(src, depth, top=False):
     raise AssertionError(op)
 
 
+def gen_remap(src):
+    """a mapping that is not the identity: ["fill", attr] or ["attr", [[from, to], ...]] (1-3 distinct keys)"""
+    if src.n(3) == 0:
+        return ["fill", ("D", "A", "B")[src.n(3)]]
+    pairs, seen = [], set()
+    for _ in range(1 + src.n(3)):
+        k = MAP_ATTRS[src.n(len(MAP_ATTRS))]
+        others = [a for a in MAP_ATTRS if a != k]
+        v = others[src.n(len(others))]
+        if k not in seen:
+            seen.add(k)
+            pairs.append([k, v])
+    return ["attr", pairs]
+
+
 def decode_case(data, depth):
     tree_bytes, leaf_bytes = data
     src = Src(tree_bytes)
@@ -1036,10 +1080,12 @@ def decode_case(data, depth):
     delta = None
     if has_delta:
         delta = {
-            "mode": (1, 1, 2, 0)[src.n(4)],
+            "mode": (1, 3, 2, 0, 4, 1, 3, 2)[src.n(8)],
             "path": [src.n(3) for _ in range(src.n(5))],
             "path2": [src.n(3) for _ in range(src.n(5))],
             "repl": gen_tree(src, min(2, depth)),
+            "remap": gen_remap(src),
+            "shift": [src.f(), src.f()],
         }
     src = Src(leaf_bytes)
     leaves = [gen_leaf(src, enc) for _ in range(1 + src.n(4))]
@@ -1131,36 +1177,55 @@ def _delta_pair(case):
     return out
 
 
-def _cview_positions(shards):
-    """{(row, col): cview} for every cview, by the absolute cell where it starts"""
+def _shard_layout(shards):
+    """{top row: [(absolute column, cview) for every cview that starts in the shard at that row]}"""
     from urwid.canvas import shard_body, shard_body_tail
 
     tail, row, out = [], 0, {}
     for num_rows, cviews in shards:
         sbody = shard_body(list(cviews), tail, False)
         tail = shard_body_tail(num_rows, sbody)
-        col = 0
+        col, mine = 0, []
         for done_rows, _it, cv in sbody:
             if not done_rows:
-                out[row, col] = cv
+                mine.append((col, cv))
             col += cv[2]
+        out[row] = mine
         row += num_rows
     return out
 
 
 def _false_unchanged(x, y):
-    """shards_delta(x, y) marks a cview of x 'unchanged' although y does not hold the identical cview at
-    the same absolute position (the comparison ignores the columns taken by cviews hanging down from
-    earlier shards)"""
-    from urwid.canvas import shards_delta
-
-    marked = _cview_positions([(n, list(cvs)) for n, cvs in shards_delta(x.shards, y.shards)])
-    mine, theirs = _cview_positions(x.shards), _cview_positions(y.shards)
-    for pos, cv in marked.items():
-        if cv[5] is None:
-            o, m = theirs.get(pos), mine[pos]
-            if o is None or o[5] is not m[5] or o[:5] != m[:5]:
+    """Root cause of the known finding, decided from the two shard lists alone (independent of what the tree under
+    test's shards_delta answers): shard_cviews_delta pairs the cviews of two shards that start at the same row by
+    counting columns over the cviews that *start* in each shard, ignoring the columns taken by cviews hanging down
+    from earlier shards.  True when that walk pairs a cview of x with an identical cview of y (same canvas object,
+    same trim / size / attribute map: it is reported 'unchanged') that sits at a different absolute column."""
+    lx, ly = _shard_layout(x.shards), _shard_layout(y.shards)
+    for top, mine in lx.items():
+        theirs = ly.get(top)
+        if theirs is None:
+            continue  # no shard of y starts at this row: shards_delta does not compare
+        it = iter(theirs)
+        other = None
+        cols = other_cols = 0
+        for abs_col, cv in mine:
+            if other is None:
+                other = next(it, None)
+            while other is not None and other_cols < cols:
+                other_cols += other[1][2]
+                other = next(it, None)
+            if other is None:
+                break  # the walk runs off the end of y's cviews (the StopIteration finding)
+            if other_cols > cols:
+                cols += cv[2]
+                continue
+            ocv = other[1]
+            if cv[5] is ocv[5] and cv[:5] == ocv[:5] and abs_col != other[0]:
                 return True
+            other_cols += ocv[2]
+            other = None
+            cols += cv[2]
     return False
 
 
